@@ -18,6 +18,7 @@ package syncx_test
 
 import (
 	"fmt"
+	"runtime"
 	"sort"
 	"sync"
 	"sync/atomic"
@@ -136,16 +137,31 @@ func c18Play(t *testing.T, c c18Case, setup func(clk *c18Clock, log *c18Log) (do
 		clk := &c18Clock{t0: time.Now()}
 		do, finish := setup(clk, log)
 		var wg sync.WaitGroup
+		// start line: all goroutines are released together and then meet at a
+		// short spin barrier, so that operations scheduled for one virtual
+		// instant really contend in parallel (the windows inside the primitives
+		// that have no blocking point are only reachable this way).
+		gate := make(chan struct{})
+		var arrived atomic.Int32
+		n := int32(len(c.Gs))
 		for g := range c.Gs {
 			wg.Add(1)
 			go func(g int, ops []c18Op) {
 				defer wg.Done()
+				<-gate
+				arrived.Add(1)
+				for spins := 0; arrived.Load() < n; spins++ {
+					if spins > 2000 {
+						runtime.Gosched()
+					}
+				}
 				for i := 0; i < len(ops); i++ {
 					c18Sleep(ops[i].G)
 					do(g, i, ops[i])
 				}
 			}(g, c.Gs[g])
 		}
+		close(gate)
 		wg.Wait()
 		if finish != nil {
 			finish()
